@@ -10,7 +10,7 @@ from penman.tree import Tree
 
 from pv.gen import graphs, models, trees
 from pv.gen.base import fy
-from pv.harness import Enum, Hyp
+from pv.harness import Enum, Fuzz, Hyp
 from pv.props.common import fmt, short, tree_classes
 from pv.ref import graphm, interp
 from pv.ref.role import build_model
@@ -168,4 +168,5 @@ def stages(tier):
              'x every top x markers kept/stripped x written+reversed order; all permutations of the triple list for trees '
              'with <= 2 (quick) / 3 (thorough) branches and <= 5 triples'),
         Hyp('random', _cases, 6000, 400000),
+        Fuzz('coverage-guided-structured', 0, 1600000, structured=_cases, max_len=2048),
     ]
